@@ -103,9 +103,9 @@ def gen(rnd, tier):
 def run(res, tier, seed):
     rnd = random.Random(seed * 7331 + 10)
     cases, dcases = gen(rnd, tier)
-    return D.run_family(res, "C10", "C10", cases, dcases,
+    return D.run_family(res, "C10", ["C10", "C10_thms"], cases, dcases,
                         rule="paste payloads (text, escape sequences, mouse reports, control bytes, invalid UTF-8, partial end markers; lengths 0..3 buffers) with random neighbours; the start marker arrives whole, payload+end marker are cut at random positions (1-byte reads, cuts inside the end marker, exactly-256 reads), followers cut at event boundaries; two pastes back to back; distinct = distinct (chunking, bytes)")
 
 
 def replay(res, path):
-    return D.replay_family(res, "C10", "C10", path)
+    return D.replay_family(res, "C10", ["C10", "C10_thms"], path)
